@@ -26,7 +26,7 @@ def run(ctx):
     exe = pc.harness()
     ctx.phase('build')
     r = ctx.rng
-    n = 120 if ctx.quick else 2500
+    n = 100 if ctx.quick else 2500
     cases = [pc.gen_case(r, exceptions=(i % 3 == 0), small=(i % 10 != 0) or ctx.quick) for i in range(n)]
     kept, terms = pc.run_lockstep(ctx, exe, cases)
     nn = 12 if ctx.quick else 150
@@ -38,8 +38,8 @@ def run(ctx):
     ctx.cov['rule'] = ('random pipelines (1-4 later stages, limits 1/2/3/unlimited/0,4,7 or plain functors, filters, 0-6 items (lockstep) / 0-30 (native), 1-3 workers, '
                        'poolLoadFactor large or tight) x random schedules under vsched, one fork per case; non-trivial = more than 20 steps; distinct = distinct (trace, log) strings; '
                        'native = real pools of 0-4 threads, 2 repetitions')
-    verdicts = ls_common.judge_parallel(ctx, pc.IMPORTS, 'judge_c28', terms, shard_size=60)
-    nverd = ls_common.judge_parallel(ctx, pc.IMPORTS, 'judge_c28n', nterms, shard_size=60)
+    verdicts = ls_common.judge_parallel(ctx, pc.IMPORTS, 'judge_c28', terms, shard_size=25)
+    nverd = ls_common.judge_parallel(ctx, pc.IMPORTS, 'judge_c28n', nterms, shard_size=25)
     if verdicts is not None and nverd is not None:
         verdicts = verdicts + nverd
     else:
